@@ -8,6 +8,7 @@ import (
 	"io"
 	"net/http"
 	"strings"
+	"syscall"
 	"time"
 
 	"github.com/TeaEntityLab/fpGo/v2/network"
@@ -45,6 +46,7 @@ type c18Scenario struct {
 	NIcs    int       `json:"interceptor_objects"`
 	NCli    int       `json:"clients"`
 	NilTr   bool      `json:"client0_has_nil_transport"`
+	ErrKind string    `json:"injected_error_kind,omitempty"` // plain | eof | unexpected-eof | connreset
 	Initial []int     `json:"initial_interceptors"`
 	Twin    bool      `json:"two_instances_from_one_slice"`
 	DefTwin bool      `json:"two_default_constructed_instances"`
@@ -61,6 +63,7 @@ func genC18(t *simrt.Tape, tier string) Scenario {
 	sc.NIcs = t.Choose(7)
 	sc.NCli = 1 + t.Choose(3)
 	sc.NilTr = t.Bool(1, 4)
+	sc.ErrKind = []string{"plain", "eof", "unexpected-eof", "connreset"}[t.ChooseW([]int{3, 1, 1, 1})]
 	pick := func() []int {
 		if sc.NIcs == 0 {
 			return nil
@@ -138,6 +141,7 @@ type c18Stub struct {
 	log   *[]string
 	depth *int
 	seen  *http.Header
+	fail  *error // non-nil target: the network fails with it (as long as it is set)
 }
 
 func (st *c18Stub) RoundTrip(req *http.Request) (*http.Response, error) {
@@ -146,6 +150,9 @@ func (st *c18Stub) RoundTrip(req *http.Request) (*http.Response, error) {
 	if req.Body != nil {
 		io.Copy(io.Discard, req.Body)
 		req.Body.Close()
+	}
+	if st.fail != nil && *st.fail != nil {
+		return nil, *st.fail
 	}
 	return &http.Response{StatusCode: 200, Status: "200 OK", Proto: "HTTP/1.1", ProtoMajor: 1, ProtoMinor: 1, Header: http.Header{}, Body: io.NopCloser(bytes.NewReader([]byte(`{"v":1}`))), Request: req}, nil
 }
@@ -157,12 +164,16 @@ func (sc *c18Scenario) Run(s *simrt.Sim) {
 	var seen http.Header
 	depth := 0
 	failAt := -1 // index into the call sequence of this request at which the interceptor fails
+	var netErr error
 	calls := 0
 	errs := make([]error, sc.NIcs)
 	ics := make([]*network.Interceptor, sc.NIcs)
 	for i := range ics {
 		i := i
 		errs[i] = fmt.Errorf("interceptor %d refused", i)
+		if w := c18ErrOfKind(sc.ErrKind); w != nil {
+			errs[i] = fmt.Errorf("interceptor %d refused: %w", i, w)
+		}
 		f := network.Interceptor(func(req *http.Request) error {
 			depth++
 			defer func() { depth-- }()
@@ -183,11 +194,11 @@ func (sc *c18Scenario) Run(s *simrt.Sim) {
 	// clients: client 0 may have a nil Transport (then http.DefaultTransport is the stub for this run)
 	clients := make([]*http.Client, sc.NCli)
 	for k := range clients {
-		clients[k] = &http.Client{Transport: &c18Stub{id: k, log: &log, depth: &depth, seen: &seen}}
+		clients[k] = &http.Client{Transport: &c18Stub{id: k, log: &log, depth: &depth, seen: &seen, fail: &netErr}}
 	}
 	if sc.NilTr {
 		saved := http.DefaultTransport
-		http.DefaultTransport = &c18Stub{id: 0, log: &log, depth: &depth, seen: &seen}
+		http.DefaultTransport = &c18Stub{id: 0, log: &log, depth: &depth, seen: &seen, fail: &netErr}
 		defer func() { http.DefaultTransport = saved }()
 		clients[0] = &http.Client{}
 	}
@@ -323,7 +334,7 @@ func (sc *c18Scenario) Run(s *simrt.Sim) {
 			c := clients[st.Cli]
 			nid := 100 + si
 			h.Do("main", "SwapTransport+SetHTTPClient", st.Cli, func() (interface{}, error) {
-				c.Transport = &c18Stub{id: nid, log: &log, depth: &depth, seen: &seen}
+				c.Transport = &c18Stub{id: nid, log: &log, depth: &depth, seen: &seen, fail: &netErr}
 				sh.SetHTTPClient(c)
 				return nil, nil
 			})
@@ -333,15 +344,44 @@ func (sc *c18Scenario) Run(s *simrt.Sim) {
 				sc.probes["request-with-2+-interceptors"]++
 			}
 			// once without a fault, then once per failing position (enumerated)
-			for fp := -1; fp < len(model); fp++ {
+			// ... and once with a network failure behind an intact chain (fp == len(model))
+			for fp := -1; fp <= len(model); fp++ {
 				log = nil
 				seen = nil
 				calls = 0
 				failAt = fp
+				netErr = nil
+				if fp == len(model) {
+					failAt = -1
+					netErr = fmt.Errorf("network down")
+					if w := c18ErrOfKind(sc.ErrKind); w != nil {
+						netErr = w
+					}
+				}
 				op, rerr := doReq(st.Verb)
+				netErr = nil
 				sc.pairs++
 				if op.Panic != "" {
 					return
+				}
+				if fp == len(model) {
+					// the chain ran exactly once, in order, although the network failed
+					var want []string
+					for _, i := range model {
+						want = append(want, fmt.Sprintf("ic%d", i))
+					}
+					gotIcs := []string{}
+					for _, e := range log {
+						if !strings.HasPrefix(e, "transport") {
+							gotIcs = append(gotIcs, e)
+						}
+					}
+					sc.probes["network-failure-behind-the-chain"]++
+					if fmt.Sprint(gotIcs) != fmt.Sprint(append([]string{}, want...)) && !(len(gotIcs) == 0 && len(want) == 0) {
+						add("chain", "chain-count-on-network-failure", fmt.Sprintf("step %d %s network failure %v: call log %v, want interceptors %v once each", si, st.Verb, c18ErrOfKind(sc.ErrKind), log, want))
+					}
+					_ = rerr // what the caller gets for a network failure is C17's subject, not C18's
+					continue
 				}
 				var want []string
 				for k, i := range model {
@@ -412,4 +452,16 @@ func (sc *c18Scenario) Check(res *simrt.Result) []Violation {
 		vs = append(vs, Violation{Clause: "hang", Fingerprint: "history-did-not-finish", Detail: "reason " + res.Reason})
 	}
 	return dedupe(vs)
+}
+
+func c18ErrOfKind(k string) error {
+	switch k {
+	case "eof":
+		return io.EOF
+	case "unexpected-eof":
+		return io.ErrUnexpectedEOF
+	case "connreset":
+		return syscall.ECONNRESET
+	}
+	return nil
 }
